@@ -28,6 +28,45 @@ import shlex
 from pytools import UniqueNameGenerator
 
 
+def split_outside_quotes(line, escape=""):
+    """
+    Return the list of whitespace-separated words of *line*, where whitespace
+    inside a quoted string does not separate words. A quote character (``'``
+    or ``"``) starts a string anywhere in a word; the string extends to the
+    next occurrence of the same quote character, and the word continues after
+    it (so a doubled quote, as used in Fortran, stays within one word). Inside
+    a string, a character contained in *escape* makes the following character
+    part of the string. Unlike :func:`shlex.split`, this agrees with how the
+    target languages read string literals that directly follow an operator or
+    an opening parenthesis.
+    """
+    words = []
+    word = ""
+    quote = None
+    escaped = False
+    for char in line:
+        if quote is None:
+            if char in " \t\r\n":
+                if word:
+                    words.append(word)
+                    word = ""
+                continue
+            if char in "'\"":
+                quote = char
+        elif escaped:
+            escaped = False
+        elif char in escape:
+            escaped = True
+        elif char == quote:
+            quote = None
+        word += char
+    if quote is not None:
+        raise ValueError("No closing quotation")
+    if word:
+        words.append(word)
+    return words
+
+
 def wrap_line_base(line, level=0, width=80, indentation="    ",
                    pad_func=lambda string, amount: string,
                    lex_func=None):
